@@ -61,6 +61,7 @@ type Case struct {
 	Identity  string    `json:"identity"`
 	Plugin    bool      `json:"plugin"`
 	Entry     string    `json:"entry"` // verifier.Verify verifier.VerifyBlob notation.Verify notation.VerifyBlob
+	Scheme    string    `json:"scheme"`
 }
 
 // ---- signers ----
@@ -125,9 +126,13 @@ func makeArtifact(kind, seed string, ann map[string]string, keySpec string) *art
 	return a
 }
 
+// scheme is a per-case choice shared by every envelope of the case (set by the test before
+// building; the fuzz seeds use the default)
+var caseScheme = envb.SchemeX509
+
 func buildEnv(format string, s *signer, payload []byte, cty string, plugin bool) []byte {
 	now := time.Now()
-	spec := envb.Spec{Format: format, Payload: payload, ContentType: cty, Scheme: envb.SchemeX509, SigningTime: now.Add(-time.Hour),
+	spec := envb.Spec{Format: format, Payload: payload, ContentType: cty, Scheme: caseScheme, SigningTime: now.Add(-time.Hour),
 		Chain: s.chain.X509(), Key: s.chain.Leaf().Key}
 	if plugin {
 		spec.Ext = []envb.Attr{{Key: envb.AttrPlugin, Critical: true, Value: "c01-plugin"}}
@@ -297,6 +302,9 @@ type result struct {
 
 func execute(c *Case, s *signer) (*result, error) {
 	storeType := "ca"
+	if c.Scheme == envb.SchemeSA {
+		storeType = "signingAuthority"
+	}
 	ts := mocks.NewTrustStore()
 	if c.Trusted {
 		ts.Put(storeType, "x", s.chain.Root().Cert)
@@ -307,9 +315,9 @@ func execute(c *Case, s *signer) (*result, error) {
 	opts := kit.Options()
 	sv := c.Level.SV("")
 	if c.Presented.Kind == "oci" {
-		opts.OCITrustPolicy = kit.OCIDoc("p", sv, []string{"ca:x"}, ids)
+		opts.OCITrustPolicy = kit.OCIDoc("p", sv, []string{storeType + ":x"}, ids)
 	} else {
-		opts.BlobTrustPolicy = kit.BlobDoc("", sv, []string{"ca:x"}, ids)
+		opts.BlobTrustPolicy = kit.BlobDoc("", sv, []string{storeType + ":x"}, ids)
 	}
 	if c.Plugin {
 		opts.PluginManager = &mocks.Manager{Plugins: map[string]pf.Plugin{"c01-plugin": &mocks.Plugin{Name: "c01-plugin", Version: "1.0.0",
@@ -426,6 +434,9 @@ func TestC01_Bound(t *testing.T) {
 			Identity: rp.Pick(rt, "identity", "wildcard", "wildcard", "pinned", "pinned-other"),
 			Plugin:   rapid.IntRange(0, 4).Draw(rt, "plugin") == 0,
 		}
+		c.Scheme = rp.Pick(rt, "scheme", envb.SchemeX509, envb.SchemeX509, envb.SchemeSA)
+		caseScheme = c.Scheme
+		defer func() { caseScheme = envb.SchemeX509 }()
 		kind := rp.Pick(rt, "kind", "oci", "blob")
 		if kind == "oci" {
 			c.Entry = rp.Pick(rt, "entry", "verifier.Verify", "verifier.Verify", "notation.Verify")
@@ -578,7 +589,7 @@ func TestC01_Bound(t *testing.T) {
 			_, e := envb.SplitCOSE(c.Envelope)
 			parsed = e == nil
 		}
-		cl := []string{"src=" + c.Source, "entry=" + c.Entry, "format=" + c.Format, "keyspec=" + c.KeySpec, "kind=" + kind, "map=" + c.Level.Key()}
+		cl := []string{"src=" + c.Source, "scheme=" + c.Scheme, "entry=" + c.Entry, "format=" + c.Format, "keyspec=" + c.KeySpec, "kind=" + kind, "map=" + c.Level.Key()}
 		if res.success {
 			cl = append(cl, "success", "success:src="+c.Source)
 		} else {
